@@ -24,6 +24,7 @@ type c06Bind struct {
 type c06Cap struct {
 	alias string // the value as handed out (may alias request buffers)
 	clone string // what it read at capture time
+	atEnd string // what the handed-out value read just before the handler returned (after it had gone on working)
 }
 
 func aliasBytes(b []byte) string {
@@ -81,9 +82,22 @@ func c06App(immutable bool, caps map[string]*c06Cap) fasthttp.RequestHandler {
 		if c.Bind().JSON(&bj) == nil {
 			put("bindjson", bj.Name)
 		}
+		if r, err := c.Range(1000); err == nil {
+			put("rangetype", r.Type)
+		}
+		// the handler goes on working: helpers that take, fill and give back pooled scratch buffers
+		c.Links("http://example.com/page/2?x="+strings.Repeat("L", 40), "next", "http://example.com/page/9", "last")
+		_ = c.String()
+		c.Attachment(strings.Repeat("A", 30) + ".txt")
+		_, _ = c.GetRouteURL("capname", fiber.Map{"p": strings.Repeat("R", 30)})
+		c.Response().Header.Del("Content-Disposition")
+		c.Response().Header.Del("Link")
+		for _, cp := range caps {
+			cp.atEnd = strings.Clone(cp.alias)
+		}
 		return c.SendString("captured")
 	}
-	app.All("/cap/:p", h)
+	app.All("/cap/:p", h).Name("capname")
 	app.All("/other/:z/more", func(c fiber.Ctx) error { return c.SendString(c.Params("z") + c.Query("q")) })
 	return app.Handler()
 }
@@ -91,13 +105,13 @@ func c06App(immutable bool, caps map[string]*c06Cap) fasthttp.RequestHandler {
 func c06Request(shape, tag string, pad int) (raw string, expect map[string]string) {
 	v := func(s string) string { return s + tag + strings.Repeat("x", pad) }
 	sub := strings.ToLower(v("sub")) // hosts are case-insensitive and arrive lower-cased
-	hdrs := "Host: " + sub + ".example.com\r\nX-H: " + v("hval") + "\r\nX-Name: " + v("hname") + "\r\nCookie: ck=" + v("cval") + "; bname=" + v("cname") + "\r\n"
+	hdrs := "Host: " + sub + ".example.com\r\nX-H: " + v("hval") + "\r\nX-Name: " + v("hname") + "\r\nRange: " + v("unit") + "=0-5\r\nCookie: ck=" + v("cval") + "; bname=" + v("cname") + "\r\n"
 	path := "/cap/" + v("pval")
 	url := path + "?q=" + v("qval") + "&name=" + v("qname")
 	expect = map[string]string{"params": v("pval"), "path": path, "originalurl": url, "protocol": "HTTP/1.1", "query": v("qval"), "queries": v("qval"),
 		"header": v("hval"), "reqheaders": v("hval"), "cookies": v("cval"), "host": sub + ".example.com", "hostname": sub + ".example.com",
 		"ip": "203.0.113.9", "baseurl": "http://" + sub + ".example.com", "subdomains": sub, "genericquery": v("qval"), "genericquerybytes": v("qval"), "genericparams": v("pval"),
-		"bindquery": v("qname"), "bindheader": v("hname"), "bindcookie": v("cname"), "binduri": v("pval")}
+		"bindquery": v("qname"), "bindheader": v("hname"), "bindcookie": v("cname"), "binduri": v("pval"), "rangetype": v("unit")}
 	switch shape {
 	case "form":
 		body := "f=" + v("fval") + "&name=" + v("fname")
@@ -156,6 +170,18 @@ func TestC06(t *testing.T) {
 			o.violation(map[string]any{"check": "value-wrong-inside-handler", "prop": "C06", "immutable": cs.Immutable, "shape": cs.Shape, "accessor": strings.SplitN(wrongAtCapture[0], ":", 2)[0], "wrong": wrongAtCapture})
 			return
 		}
+		// with or without the option: what the handler took must still read the same when it returns
+		var unstable []string
+		for k, c := range caps {
+			if c.atEnd != c.clone {
+				unstable = append(unstable, fmt.Sprintf("%s: took %q, reads %q before returning", k, c.clone, c.atEnd))
+			}
+		}
+		sort.Strings(unstable)
+		if len(unstable) > 0 {
+			o.violation(map[string]any{"check": "value-changed-inside-handler", "prop": "C06", "immutable": cs.Immutable, "shape": cs.Shape, "accessor": strings.SplitN(unstable[0], ":", 2)[0], "changed": unstable})
+			return
+		}
 		captured := map[string]*c06Cap{}
 		for k, v := range caps {
 			captured[k] = v
@@ -168,11 +194,11 @@ func TestC06(t *testing.T) {
 			case "same":
 				raw2, _ = c06Request(cs.Shape, "D", 0)
 			case "shorter":
-				raw2 = "GET /cap/s?q=1 HTTP/1.1\r\nHost: a.b.c\r\nX-H: h\r\nCookie: ck=c\r\n\r\n"
+				raw2 = "GET /cap/s?q=1 HTTP/1.1\r\nHost: a.b.c\r\nX-H: h\r\nRange: zz=0-1\r\nCookie: ck=c\r\n\r\n"
 			case "longer":
 				raw2, _ = c06Request("form", tag, 40)
 			case "otherroute":
-				raw2 = "GET /other/" + strings.Repeat("o", 20) + "/more?q=" + strings.Repeat("Q", 30) + " HTTP/1.1\r\nHost: zzzzzzzz.example.org\r\nX-H: " + strings.Repeat("H", 25) + "\r\n\r\n"
+				raw2 = "GET /other/" + strings.Repeat("o", 20) + "/more?q=" + strings.Repeat("Q", 30) + " HTTP/1.1\r\nHost: zzzzzzzz.example.org\r\nX-H: " + strings.Repeat("H", 25) + "\r\nRange: " + strings.Repeat("w", 12) + "=0-1\r\n\r\n"
 			case "malformed":
 				raw2 = "GE T /" + strings.Repeat("m", 60) + "\r\n\r\n"
 			}
